@@ -24,11 +24,14 @@ PROPERTIES = {
                         'the lemma jfilter(filter_json(v)) == v (byte-identical re-parse) is not stated; proved is Filter::as_json == filter_json(view): members in fixed order, comma separated, values JSON-escaped'],
     },
     'C01': {
-        'units': ['utf8', 'escape', 'lex', 'hexread', 'tagsjson', 'event_parse', 'event'],
+        'units': ['utf8', 'escape', 'lex', 'hexread', 'tagsjson', 'event_parse', 'from_json', 'event'],
         'kani': ['leaf'], 'kani_quick': ['leaf'],
-        'sample_functions': ['read_u64', 'read_kind', 'read_id', 'next_code_point', 'encode_utf8', 'parse_json_event'],
-        'not_decided': ['stage 3/4 of DESIGN.md C01: the entry-point contract `Ok ==> jevent(input) == event_view(output)` and its converse (completeness) are not yet stated; what is proved is every leaf against its grammar-level spec (integers: Ok iff the digit run fits, value equal, never wrapped; hex members: exactly 64/128 hex digits decoded; UTF-8 encode/decode against RFC 3629; json_unescape totality) and the parser skeleton (consumed length, length field, padding)'],
+        'sample_functions': ['parse_json_event', 'Event::from_json', 'json_unescape', 'read_tags_array', 'read_tag', 'read_content', 'burn_value', 'read_u64', 'read_id'],
+        'not_decided': ['completeness at the entry point (every event text is ACCEPTED when the buffer is large enough) is proved leaf by leaf (json_unescape, read_content, integers, hex members, the burn_* skippers) but not composed for parse_json_event: count_tags and the 204-byte minimum are not related to the grammar',
+                        'member keys are recognised by their raw bytes: a key written with escapes (e.g. "\\u0069d") is treated as an unknown member; the spec jevent does the same, so this deviation from an unescaping parser is outside what is proved',
+                        'the independent parser is the spec spec/jevent.rs + jtags.rs + unescape.rs + jvalue.rs (written from RFC 8259 / NIP-01): its own adequacy is by reading; \\u escapes naming surrogates are outside it, as in the property'],
     },
+
     'C02': {
         'units': ['utf8', 'escape', 'event', 'event_json', 'tags_json', 'event_parse', 'hexwrite'],
         'kani': ['leaf'], 'kani_quick': ['leaf'],
